@@ -8,9 +8,11 @@ Expected results come from the reference-free (inlined) schemas, not from solo
 runs of the same code paths.
 """
 import copy
+import importlib
 import itertools
 import json
 import os
+import sys
 
 import jsonschema
 from jsonschema import FormatChecker, RefResolver, exceptions
@@ -259,6 +261,132 @@ def cs_configs(tier):
     return [((4, 7), "call", 2), ((3, 6), "call", 2), ((6, 4), "call", 2), ((4, 6, 7), "call", 1), ((7, 4), "line", 1)]
 
 
+# ------------------------------------------------------------------ part D: cold start
+# The threads themselves construct resolver and validator, and the package is imported afresh for every
+# schedule, so that every lazily built module-level table is built *during* the explored schedule.
+META_REF = {3: "http://json-schema.org/draft-03/schema#/properties/minLength",
+            4: "http://json-schema.org/draft-04/schema#/definitions/positiveInteger",
+            6: "http://json-schema.org/draft-06/schema#/definitions/nonNegativeInteger",
+            7: "http://json-schema.org/draft-07/schema#/definitions/nonNegativeInteger"}
+META_URL = {d: META_REF[d].split("#")[0] for d in META_REF}
+
+
+def _pkg_modules():
+    return [k for k in sys.modules if k == "jsonschema" or k.startswith("jsonschema.")]
+
+
+def fresh_package():
+    """Import the package under test afresh: new module objects, module-level state as in a new process."""
+    for k in _pkg_modules():
+        del sys.modules[k]
+    return importlib.import_module("jsonschema")
+
+
+class _Warm(object):
+    """Keeps the long-lived (warm) package modules and puts them back afterwards."""
+
+    def __enter__(self):
+        self.saved = {k: sys.modules[k] for k in _pkg_modules()}
+        return self
+
+    def __exit__(self, *a):
+        for k in _pkg_modules():
+            del sys.modules[k]
+        sys.modules.update(self.saved)
+
+
+def cold_schema(d, k, mode):
+    var = VARIANTS[k]
+    props = {"p": {"$ref": "#/definitions/a"}, "m": {"$ref": META_REF[d]}}
+    if mode == "resolver":
+        props["r"] = {"$ref": URL + "#/d"}
+    return {"definitions": {"a": var["T"]}, "properties": props}
+
+
+def cold_instance(k):
+    var = VARIANTS[k]
+    return {"p": var["inst"][1] if k != 1 else 1, "m": -1, "r": var["inst"][0]}
+
+
+_cold_expected = {}
+
+
+def cold_expected(d, k, mode):
+    key = (d, k, mode)
+    if key not in _cold_expected:
+        var = VARIANTS[k]
+        S = cold_schema(d, k, mode)
+        w = refmodel.World(d, S, {URL: var["R"], META_URL[d]: _e1.CLS[d].META_SCHEMA})
+        I = refmodel.inline(w, S)
+        errs = sorted((e.validator, e.message, tuple(e.absolute_path)) for e in _e1.CLS[d](I).iter_errors(cold_instance(k)))
+        _cold_expected[key] = errs
+    return _cold_expected[key]
+
+
+def cold_bodies(d, consumers):
+    """consumers: ((variant, mode), ...); mode in resolver / plain / validate / check_schema."""
+    J = fresh_package()
+    cls = getattr(J, "Draft%dValidator" % d)
+
+    def refuse(uri):
+        raise RuntimeError("retrieval attempted for %s" % (uri,))
+
+    def mk(k, mode):
+        var = VARIANTS[k]
+        S = cold_schema(d, k, mode)
+        inst = cold_instance(k)
+        doc = copy.deepcopy(var["R"])
+
+        def body():
+            if mode == "resolver":
+                r = J.RefResolver.from_schema(S, id_of=cls.ID_OF, store={URL: doc},
+                                              handlers={"http": refuse, "https": refuse})
+                v = cls(S, resolver=r)
+                return sorted((e.validator, e.message, tuple(e.absolute_path)) for e in v.iter_errors(inst))
+            if mode == "plain":
+                return sorted((e.validator, e.message, tuple(e.absolute_path)) for e in cls(S).iter_errors(inst))
+            if mode == "validate":
+                try:
+                    J.validate(inst, S, cls=cls)
+                except J.ValidationError as e:
+                    return [("raised", e.validator, e.message, tuple(e.absolute_path))]
+                return []
+            cls.check_schema(S)
+            return ["accepted"]
+        return body
+    return [mk(k, mode) for k, mode in consumers]
+
+
+def cold_check(d, consumers):
+    def check(results):
+        for i, (k, mode) in enumerate(consumers):
+            res = results[i]
+            if mode == "check_schema":
+                ok = res == ["accepted"]
+                exp = ["accepted"]
+            elif mode == "validate":
+                exp = cold_expected(d, k, "validate")
+                ok = (isinstance(res, list) and len(res) == 1 and res[0][0] == "raised" and tuple(res[0][1:]) in exp) \
+                    if exp else res == []
+            else:
+                exp = cold_expected(d, k, mode)
+                ok = res == exp
+            if not ok:
+                return {"thread": i, "variant": k, "mode": mode, "got": res, "expected": exp}
+        return None
+    return check
+
+
+def cold_configs(tier):
+    # (consumers, granularity, preemption bound)
+    R, P, V, CSM = "resolver", "plain", "validate", "check_schema"
+    if tier == "quick":
+        return [(((0, R), (1, R)), "line", 1), (((0, V), (1, P)), "call", 1), (((0, P), (1, CSM), (2, R)), "call", 1)]
+    return [(((0, R), (1, R)), "line", 1), (((0, R), (1, R)), "call", 2), (((0, V), (1, P)), "line", 1),
+            (((0, V), (1, V)), "call", 2), (((0, P), (1, CSM), (2, R)), "call", 1), (((1, CSM), (0, R)), "line", 1),
+            (((2, P), (0, V), (1, R)), "call", 1)]
+
+
 def plan(ctx):
     units = []
     sizes = {}
@@ -292,6 +420,21 @@ def plan(ctx):
         chunk = max(1, n // 48)
         for lo in range(0, n, chunk):
             units.append(("CS", ci, lo, min(n, lo + chunk)))
+    drafts_d = (7, 4) if ctx.tier == "quick" else _e1.DRAFTS
+    with _Warm():
+        for d in drafts_d:
+            for di, (consumers, gran, bound) in enumerate(cold_configs(ctx.tier)):
+                if ctx.tier == "quick" and d != 7 and di > 0:
+                    continue
+                for k, mode in consumers:
+                    cold_expected(d, k, mode)
+                sc = threads.Sched(cold_bodies(d, consumers), [], PKG, gran)
+                _, pts = sc.run()
+                n = len(pts)
+                sizes["cold_points_d%d_%s_%s" % (d, "+".join(m for _, m in consumers), gran)] = n
+                chunk = max(1, n // (48 if bound >= 2 else 32))
+                for lo in range(0, n, chunk):
+                    units.append(("D", d, di, lo, min(n, lo + chunk)))
     return {
         "units": units,
         "rule": ("part A: validators of 3 variants that share the base URI '', the reference strings, the remote "
@@ -299,7 +442,10 @@ def plan(ctx):
                  "combination of consumer programs (exhaust / take k then close) EVERY interleaving of their "
                  "next()/close() steps on fresh validators; part B: whole validations in 2-3 real threads under a "
                  "baton scheduler, every schedule with <= bound preemptions at call (and line) granularity, and "
-                 "check_schema of different draft classes in concurrent threads (the metaschemas use $ref); each "
+                 "check_schema of different draft classes in concurrent threads (the metaschemas use $ref); part D (cold "
+                 "start): the package is imported afresh for every schedule and the threads themselves construct "
+                 "resolver and validator (explicit resolver / implicit / module-level validate / check_schema), so "
+                 "lazily built module-level tables are built under every explored schedule; each "
                  "consumer must see exactly the errors of the reference-free equivalent schema and leave its "
                  "resolver's scope untouched; distinct schedules by construction; distinct_nontrivial = schedules "
                  "with at least one switch between consumers"),
@@ -354,6 +500,25 @@ def run_unit(unit, ctx):
                 "outcomes": outcomes,
                 "counters": {"states": r["schedules"], "transitions": r["steps"],
                              "traces_validated_against_impl": r["schedules"], "checkschema_schedules": r["schedules"]}}
+    if unit[0] == "D":
+        _, d, di, lo, hi = unit
+        consumers, gran, bound = cold_configs(ctx.tier)[di]
+        with _Warm():
+            r = threads.explore(lambda: cold_bodies(d, consumers), cold_check(d, consumers), PKG, gran, bound, (lo, hi))
+        for choices, bad in r["problems"]:
+            viol.append({"signature": "C18|threads-cold-start|%s|%s" % (gran, "+".join(m for _, m in consumers)),
+                         "size": len(choices),
+                         "case": {"part": "D", "draft": d, "consumers": [list(c) for c in consumers],
+                                  "granularity": gran, "choices": choices}, "detail": bad})
+        outcomes = {"cold-preemptions=%d" % k: v for k, v in r["by_preemptions"].items()}
+        nt = sum(v for k, v in r["by_preemptions"].items() if k > 0)
+        if lo == 0:
+            samples.append({"part": "D", "draft": d, "consumers": [list(c) for c in consumers], "granularity": gran,
+                            "bound": bound, "scheduling_points_in_deviation_free_run": r["points_root"]})
+        return {"evaluations": r["schedules"], "nontrivial": nt, "violations": viol, "samples": samples,
+                "outcomes": outcomes,
+                "counters": {"states": r["schedules"], "transitions": r["steps"],
+                             "traces_validated_against_impl": r["schedules"], "coldstart_schedules": r["schedules"]}}
     _, d, bi, lo, hi = unit
     ks, gran, bound, nlen = part_b_configs(ctx.tier)[bi]
     r = threads.explore(lambda: bodies_for(d, ks, nlen), check_results(d, ks, nlen), PKG, gran, bound, (lo, hi))
@@ -380,6 +545,17 @@ def replay(case, ctx):
         results, points = sc.run()
         bad = cs_check(drafts)(results)
         return {"reproduced": bad is not None, "problem": bad}
+    if case["part"] == "D":
+        d = case["draft"]
+        consumers = tuple((k, m) for k, m in case["consumers"])
+        outs = []
+        with _Warm():
+            for _ in range(2):
+                sc = threads.Sched(cold_bodies(d, consumers), case["choices"], PKG, case["granularity"])
+                results, points = sc.run()
+                outs.append((repr(results), len(points)))
+        bad = cold_check(d, consumers)(results)
+        return {"reproduced": bad is not None, "problem": bad, "identical_replays": outs[0] == outs[1]}
     d, ks = case["draft"], tuple(tuple(k) if isinstance(k, list) else k for k in case["variants"])
     if case["part"] == "A":
         A_LEN["n"] = case.get("elements", A_LEN["n"])
